@@ -410,7 +410,8 @@ def mc_db(tier, d8=False):
     # AbyDb: the contract (one state per name); AbyReg: the design under it (buffered instances, five registries):
     # one instance per name as long as every getter consults its registry and the signatures are distinct
     q = [_mc("MCDb.tla", "MCDb_q.cfg", workers=12), _mc("MCReg.tla", "MCReg_q.cfg", workers=8),
-         _mc("MCReg.tla", "MCReg_nolookup.cfg", workers=2, witness="OneInstance")]
+         _mc("MCReg.tla", "MCReg_nolookup.cfg", workers=2, witness="OneInstance"),
+         _mc("MCReg.tla", "MCReg_close_w.cfg", workers=2, witness="CloseDurable")]
     if d8:
         q.append(_mc("MCDb.tla", "MCDb_d8.cfg", workers=2, witness="TypeSafe"))
         q.append(_mc("MCReg.tla", "MCReg_d8.cfg", workers=2, witness="OneInstance"))
@@ -446,7 +447,7 @@ PLANS = {
     "C11": dict(attr=["C11.", "C01.result", "C01.outcome", "C04.", "C02.content"], mc=lambda t: mc_db(t), proofs=["AbyRegProofs.tla"], workloads=wl_multi, assumptions=COMMON_ASSUME),
     "C15": dict(attr=["C15.", "C02.content", "C05.content", "C05.count"], mc=lambda t: MC_STORE_Q + [_mc("MCScan.tla", "MCScan_all8.cfg"), _mc("MCScan.tla", "MCScan_n32.cfg")], workloads=wl_readonly, assumptions=COMMON_ASSUME),
     "C18": dict(attr=["C18."], mc=lambda t: MC_STORE_Q, workloads=wl_twice, assumptions=COMMON_ASSUME),
-    "C02": dict(attr=["C02.", "C01.result", "C01.outcome", "C05.content"], mc=lambda t: mc_buf(t) + mc_db(t), workloads=wl_reopen, assumptions=COMMON_ASSUME),
+    "C02": dict(attr=["C02.", "C01.result", "C01.outcome", "C05.content"], mc=lambda t: mc_buf(t) + mc_db(t), proofs=["AbyRegProofs.tla"], workloads=wl_reopen, assumptions=COMMON_ASSUME),
     "C03": dict(attr=["C03."], mc=lambda t: mc_buf(t, "pinned"), proofs=["AbyBufProofs.tla"], workloads=wl_sync, assumptions=COMMON_ASSUME),
     "C16": dict(attr=["C16.", "C03.outcome", "C01.result"], mc=lambda t: mc_buf(t, "clearearly"), proofs=["AbyBufProofs.tla"], workloads=wl_fault, assumptions=COMMON_ASSUME),
     "C04": dict(attr=["C04.", "C01.outcome"], mc=mc_scan, workloads=wl_iter, assumptions=COMMON_ASSUME),
